@@ -66,6 +66,8 @@ MUT = [
     ("C18", "date / dateTime check accepts a space for the T (fromisoformat then reads it)", True, [(DT, 'r"(?:T\\d{2}:\\d{2}:\\d{2}(?:\\.\\d+)?', 'r"(?:[T ]\\d{2}:\\d{2}:\\d{2}(?:\\.\\d+)?')]),
     ("C18", "Boolean.encode: strings compared without lower() (\"True\" refused)", True, [(DT, '        if value is True or str(value).lower() == "true":', '        if value is True or str(value) == "true":')]),
     ("C18", "Unit.convert: centimetres divided by 2.5", True, [(DT, 'Decimal("2.54")', 'Decimal("2.5")')]),
+    ("C18", "seeded C18-4: DateTime.encode behind functools.lru_cache (equal instants in other zones get the first string)", True, [(DT,
+        "    @staticmethod\n    def encode(value: datetime) -> str:\n        text = value.isoformat()", "    @staticmethod\n    @__import__(\"functools\").lru_cache(maxsize=1024)\n    def encode(value: datetime) -> str:\n        text = value.isoformat()")]),
     ("C18", "REWRITE Duration.encode with divmod on integers", False, [(DT,
         "        hours = microseconds / (60 * 60 * 1000000)\n        microseconds %= 60 * 60 * 1000000\n\n        minutes = microseconds / (60 * 1000000)\n        microseconds %= 60 * 1000000\n\n        seconds = microseconds / 1000000\n",
         "        hours, microseconds = divmod(microseconds, 60 * 60 * 1000000)\n        minutes, microseconds = divmod(microseconds, 60 * 1000000)\n        seconds = microseconds // 1000000\n")]),
@@ -108,6 +110,14 @@ MUT = [
         "            with contextlib.suppress(ValueError):\n                if int(value) == value:\n                    return (int(value), \"float\")\n            return (value, \"float\")")]),
     ("C06", "Row.set_value writes a cell repeated twice (a neighbour of the addressed cell changes)", True, [(S + "row.py",
         "            x,\n            Cell(value, style=style, cell_type=cell_type, currency=currency),\n", "            x,\n            Cell(value, style=style, cell_type=cell_type, currency=currency, repeated=2),\n")]),
+    ("C06", "seeded C06-6: UserDefined(from_document) takes the metadata value with `or` (falsy document values lost)", True, [(VAR,
+        "                if content is not None:\n                    value = content.get(\"value\", None)\n                    value_type = content.get(\"value_type\", None)\n                    text = content.get(\"text\", None)\n",
+        "                if content:\n                    value = content.get(\"value\") or value\n                    value_type = content.get(\"value_type\") or value_type\n                    text = content.get(\"text\") or text\n")]),
+    ("C06", "Meta.user_defined_metadata dict setter skips falsy values", True, [(META,
+        "        for key, val in metadata.items():\n            self.set_user_defined_metadata(name=key, value=val)", "        for key, val in metadata.items():\n            if val:\n                self.set_user_defined_metadata(name=key, value=val)")]),
+    ("C06", "VarGet constructor: `if value:` before set_value_and_type (falsy values not written)", True, [(VAR,
+        "            text = self.set_value_and_type(\n                value=value, value_type=value_type, text=text\n            )\n            self.text = text  # type: ignore\n\n\nVarGet._define_attribut_property()",
+        "            if value:\n                text = self.set_value_and_type(\n                    value=value, value_type=value_type, text=text\n                )\n            self.text = text  # type: ignore\n\n\nVarGet._define_attribut_property()")]),
     ("C06", "REWRITE Cell.set_value without clear() (the removal list of set_value_and_type does the work)", False, [(CELL,
         "        self.clear()\n        text = self.set_value_and_type(", "        text = self.set_value_and_type(")]),
     ("C06", "REWRITE str branch moved before datetime in set_value_and_type; set literal as tuple in Cell.value", False, [
